@@ -299,7 +299,9 @@ Pure(name, a) ==
     [] name = "assert" -> IF n \notin {1, 2} THEN OE ELSE IF Truthy(a[1]) THEN OV(NilV) ELSE OE
     \* (split s sep): the pieces of s between occurrences of sep, as a vector; an empty sep splits into
     \* characters (tests/stepH_strings.mal)
-    [] name = "split" -> IF n # 2 \/ a[1].t # "str" \/ a[2].t # "str" THEN OE
+    [] name = "split" -> IF n # 2 THEN OE
+                         ELSE IF a[1].t = "kw" \/ a[2].t = "kw" THEN OX     \* keywords are strings to the Go binder
+                         ELSE IF a[1].t # "str" \/ a[2].t # "str" THEN OE
                          ELSE OV(VecV([k \in 1..Len(SplitStr(a[1].s, a[2].s)) |-> StrV(SplitStr(a[1].s, a[2].s)[k])]))
     [] name = "type?" -> IF n # 1 THEN OE
                          ELSE (CASE a[1].t = "nil" -> OV(StrV("nil")) [] a[1].t = "list" -> OV(StrV("list"))
